@@ -571,6 +571,13 @@ def gen_oracle_form(rng):
     while depth:
         kind, _ = depth.pop()
         survey.append({"type": f"end {kind}"})
+    # a column whose header cannot be an element name (it holds a space) is dropped with a warning -- wherever its cells are filled
+    if rng.random() < 0.25:
+        bad = rng.choice(["my notes", "see also", "a b c"])
+        for ln, info in lists.items():
+            for j, r in enumerate(info["rows"]):
+                if (j > 0 or rng.random() < 0.3) and rng.random() < 0.6:
+                    r[bad] = rng.choice(["n", "x y", "1"])
     form = {"survey": survey, "choices": choices}
     if allow_dup:
         form["settings"] = [{"allow_choice_duplicates": "yes"}]
@@ -600,7 +607,7 @@ def audit(case, result):
     if len(set(ids)) != len(ids):
         probs.append(f"instance ids are not unique: {ids}")
     lists = case["lists"]
-    hdr_cols = [c for c in forms.headers_of(case["form"]["choices"]) if c not in ("list_name", "name") and not c.startswith("label")]
+    hdr_cols = [c for c in forms.headers_of(case["form"]["choices"]) if c not in ("list_name", "name") and not c.startswith("label") and " " not in c]
     or_other_lists = {s["list"] for s in case["selects"] if s["variant"] == "or_other"}
     for ln, info in lists.items():
         found = [i for i in insts if i.get("id") == ln]
@@ -724,6 +731,12 @@ def _check(args):
         return {"i": i, "skip": "generator: search list shared"}
     st, r = xf.convert_form(forms.as_dict(case["form"]))
     if st != "ok":
+        # the generator builds valid workbooks; the one rejection it can draw is a clash of instance ids between an external source
+        # and a file of the same stem (part of the property).  Any other refusal means a list yields no instance at all.
+        if st == "pyxerr" and str(r).startswith("The same instance id will be generated for different external instance source URIs"):
+            return {"i": i, "skip": st + ":" + str(r)[:60], "form": case["form"]}
+        if st == "pyxerr":
+            return {"i": i, "form": case["form"], "what": f"a workbook whose lists and selects are all valid was refused: {str(r)[:300]}"}
         return {"i": i, "skip": st + ":" + str(r)[:60], "form": case["form"]}
     try:
         probs = audit(case, r)
@@ -781,6 +794,10 @@ def replay(path: Path) -> int:
                 if probs:
                     print(f"VIOLATION property={PID} replay={path}")
                     return 1
+            elif st == "pyxerr" and not str(r).startswith("The same instance id will be generated"):
+                print(f"a valid workbook was refused: {r}")
+                print(f"VIOLATION property={PID} replay={path}")
+                return 1
             return 0
     print("the replay's form is not the one this generator draws for that case number; run the check to search again")
     return 0
